@@ -1253,7 +1253,7 @@ def check_C19(ctx):
                 continue
             n += 1
             kv = dict(x.split('=', 1) for x in p_[1:])
-            for key, what in (('roundtrip', 'dump / read round trip'), ('chrono', 'chronological replay of the dumped DAG'), ('shrink', 'conversion with shrinking')):
+            for key, what in (('roundtrip', 'dump / read round trip'), ('chrono', 'chronological replay of the dumped DAG'), ('shrink', 'conversion with shrinking'), ('strings', 'source positions / string table of the dumped and of the converted DAG')):
                 if kv.get(key) != 'ok' and len(ctx.violations) < 6:
                     ctx.violation('%s fails under setting %s for execution %s: %s' % (what, setting, p_[0], kv.get(key)), [beh, outp])
         if rc_ != 0 or n != ncases:
@@ -1458,7 +1458,245 @@ def check_C03(ctx):
                         'the abstract machine is bounded (3 threads, 1-2 workers, 3-6 switches); the probes sample programs and schedules']
 
 
-CHECKS = {'C03': check_C03, 'C01': check_C01, 'C02': check_C02, 'C04': check_C04, 'C09': check_C09, 'C10': check_C10, 'C11': check_C11, 'C05': check_C05, 'C06': check_C06, 'C07': check_C07,
+# ----------------------------------------------------------------------------- C16: pthread programs
+POP = dict(CREATE=1, JOIN=2, DETACH=3, RET=4, EXIT=5, LOCK=6, TLOCK=7, UNLOCK=8, SPIN=9, SPUN=10, ADD=11, READ=12, WAITV=13,
+           SIGV=14, BARRIER=15, ONCE=16, SETSPEC=17, GETSPEC=18, SELF=19, YIELD=20, SLEEP=21)
+PNAME = {v: k for k, v in POP.items()}
+
+
+def gen_pth_prog(rng):
+    """a small determinate-by-construction pthread program: thread 1 is main, children 2..NT"""
+    nch = rng.randint(1, 3)
+    NT = nch + 1
+    th = {t: [] for t in range(1, NT + 1)}
+    barn = [0, 0, 0, 0]; keydt = [rng.choice((0, 1)) for _ in range(4)]; mkind = [rng.choice((0, 1)) for _ in range(4)]
+    kind = rng.choice(('counter', 'counter', 'handoff', 'barrier', 'keys', 'once', 'detach', 'static'))
+    ends = lambda t: rng.choice(([], [('RET', 2000 + t, 0, 0)], [('EXIT', 3000 + t, 0, 0)]))
+
+    def locked_add(m, v, d, style):
+        if style == 'SPIN':
+            return [('SPIN', 4 + m, 0, 0), ('ADD', v, d, 0), ('SPUN', 4 + m, 0, 0)]
+        return [(style, m, 0, 0), ('ADD', v, d, 0), ('UNLOCK', m, 0, 0)]
+    main = th[1]
+    attr = lambda: rng.choice((0, 0, 1, 3))
+    if kind in ('counter', 'static', 'once'):
+        m = rng.randrange(2); v = rng.randrange(2)
+        if kind == 'static':
+            mkind[m] = 1
+        for t in range(2, NT + 1):
+            b = []
+            if kind == 'once':
+                b.append(('ONCE', 0, 0, 0))
+            for _ in range(rng.randint(1, 2)):
+                b += locked_add(m, v, rng.randint(1, 5), 'LOCK' if kind == 'static' else rng.choice(('LOCK', 'LOCK', 'TLOCK', 'SPIN')))
+                if rng.random() < 0.3:
+                    b.append((rng.choice(('YIELD', 'SELF')), 0, 0, 0))
+            th[t] = b + ends(t)
+            main.append(('CREATE', t, attr(), 0))
+        if kind == 'once':
+            main.append(('ONCE', 0, 0, 0))
+        if rng.random() < 0.5:
+            main += locked_add(m, v, 7, 'LOCK')
+        order = list(range(2, NT + 1)); rng.shuffle(order)
+        main += [('JOIN', t, 0, 0) for t in order] + [('READ', v, 0, 0)]
+    elif kind == 'handoff':
+        m = rng.randrange(2); mkind[m] = rng.choice((0, 1))
+        for t in range(2, NT + 1):
+            main.append(('CREATE', t, attr(), 0))
+            th[t] = [('WAITV', m, 0, t - 1), ('ADD', 1, t, 0), ('READ', 1, 0, 0), ('SIGV', m, 0, t)] + ends(t)
+        if rng.random() < 0.5:
+            main.append(('YIELD', 0, 0, 0))
+        main += [('SIGV', m, 0, 1), ('WAITV', m, 0, NT), ('READ', 1, 0, 0)]
+        main += [('JOIN', t, 0, 0) for t in range(2, NT + 1)]
+    elif kind == 'barrier':
+        withmain = rng.random() < 0.5
+        n = nch + (1 if withmain else 0)
+        if n < 2:
+            withmain = True; n = nch + 1
+        barn[0] = n
+        rounds = rng.randint(1, 2)
+        body = []
+        for r in range(rounds):
+            body += [('LOCK', 0, 0, 0), ('ADD', 0, 1 + r, 0), ('UNLOCK', 0, 0, 0), ('BARRIER', 0, 0, 0), ('READ', 0, 0, 0)]
+            if r + 1 < rounds:
+                body += [('BARRIER', 0, 0, 0)]
+        for t in range(2, NT + 1):
+            main.append(('CREATE', t, attr(), 0)); th[t] = list(body) + ends(t)
+        if withmain:
+            main += body
+        main += [('JOIN', t, 0, 0) for t in range(2, NT + 1)]
+    elif kind == 'keys':
+        for t in range(2, NT + 1):
+            main.append(('CREATE', t, attr(), 0))
+            b = []
+            for _ in range(rng.randint(1, 3)):
+                k = rng.randrange(4)
+                b += [('SETSPEC', k, rng.choice((0, 100 * t + k + 1)), 0)]
+                if rng.random() < 0.5:
+                    b.append(('YIELD', 0, 0, 0))
+                b += [('GETSPEC', rng.randrange(4), 0, 0)]
+            th[t] = b + ends(t)
+        main += [('SETSPEC', 0, 77, 0), ('GETSPEC', 0, 0, 0)]
+        main += [('JOIN', t, 0, 0) for t in range(2, NT + 1)]
+        main += [('GETSPEC', 0, 0, 0)]
+    else:   # detach
+        keydt = [0, 0, 0, 0]
+        for t in range(2, NT + 1):
+            how = rng.choice(('attr', 'main', 'self', 'join'))
+            main.append(('CREATE', t, 2 if how == 'attr' else attr(), 0))
+            b = locked_add(0, 0, t, 'LOCK')
+            if how == 'self':
+                b = [('DETACH', t, 0, 0)] + b
+            if how == 'main':
+                main.append(('DETACH', t, 0, 0))
+            th[t] = b + (ends(t) if how == 'join' else rng.choice(([], [('EXIT', 5, 0, 0)])))
+            if how == 'join':
+                main.append(('JOIN', t, 0, 0))
+    return {'threads': [th[t] for t in range(1, NT + 1)], 'barn': barn, 'keydt': keydt, 'mkind': mkind, 'kind': kind}
+
+
+def write_pth_prog(path, prog):
+    with open(path, 'w') as f:
+        f.write('%d\n%s\n%s\n%s\n' % (len(prog['threads']), ' '.join(map(str, prog['barn'])), ' '.join(map(str, prog['keydt'])), ' '.join(map(str, prog['mkind']))))
+        for b in prog['threads']:
+            f.write('%d\n' % len(b))
+            for o in b:
+                f.write('%d %d %d %d\n' % (POP[o[0]], o[1], o[2], o[3]))
+
+
+def write_pth_tla(path, progs):
+    def T(o):
+        return '[op |-> "%s", a |-> %d, b |-> %d, c |-> %d]' % o
+    with open(path, 'w') as f:
+        f.write('------------------------------ MODULE PthProgs ------------------------------\n(* GENERATED: the programs of this run *)\nProgs == <<\n')
+        items = []
+        for p_ in progs:
+            ths = ',\n      '.join('<<' + ', '.join(T(o) for o in b) + '>>' for b in p_['threads'])
+            items.append('  [threads |-> <<\n      %s >>,\n   barn |-> <<%s>>, keydt |-> <<%s>>]' % (ths, ', '.join(map(str, p_['barn'])), ', '.join(map(str, p_['keydt']))))
+        f.write(',\n'.join(items) + ' >>\n=============================================================================\n')
+
+
+def norm_result(r):
+    v = r['vars']
+    if isinstance(v, dict):
+        v = [v[k] for k in sorted(v, key=int)]
+    return {'vars': list(v), 'outs': [list(x) for x in r['outs']], 'glob': {k: r['glob'][k] for k in ('dtsum', 'dtcalls', 'oncecnt', 'serials')}}
+
+
+def check_C16(ctx):
+    wd = ctx.work
+    n = 60 if ctx.quick else 600
+    rng = random.Random(ctx.seed * 104729 + 7)
+    progs = [gen_pth_prog(rng) for _ in range(n)]
+    # --- (1) TLC: every interleaving of every program; determinacy and the expected result
+    d = os.path.join(wd, 'pth'); shutil.rmtree(d, ignore_errors=True); os.makedirs(d)
+    shutil.copy(os.path.join(SPEC, 'PthreadAbs.tla'), d)
+    write_pth_tla(os.path.join(d, 'PthProgs.tla'), progs)
+    open(os.path.join(d, 'PthreadAbs.cfg'), 'w').write('SPECIFICATION Spec\nINVARIANT EmitResult\nINVARIANT EmitStuck\nINVARIANT WellFormedEnd\nCHECK_DEADLOCK FALSE\n')
+    r = tlc_design('PthreadAbs', os.path.join(d, 'PthreadAbs.cfg'), coverage=False, heap='8g', timeout=7200, cwd=d)
+    if not r['ok']:
+        raise Infra('PthreadAbs: ' + str(r['violation']) + r['out'][-1500:])
+    ctx.cov['states'] += r['distinct']; ctx.cov['transitions'] += r['states']
+    ctx.cov['design_runs'].append({'module': 'PthreadAbs', 'cfg': '%d generated programs' % n, 'distinct_states': r['distinct'], 'states_generated': r['states'], 'wall_s': r['wall_s'], 'result': 'ok'})
+    results = {}; stuck = set()
+    for l in r['out'].split('\n'):
+        m = re.match(r'<<"RESULT", (\d+), "(.*)">>$', l)
+        if m:
+            js = json.loads(m.group(2).replace('\\"', '"'))
+            results.setdefault(int(m.group(1)), []).append(json.dumps(norm_result(js), sort_keys=True))
+        m = re.match(r'<<"STUCK", (\d+)>>', l)
+        if m:
+            stuck.add(int(m.group(1)))
+    expected = {}
+    for i in range(1, n + 1):
+        rs = set(results.get(i, []))
+        if i not in stuck and len(rs) == 1:
+            expected[i] = json.loads(rs.pop())
+    ctx.log('MC PthreadAbs: %d programs, %d distinct states; %d determinate and deadlock-free (%d with several results, %d with a deadlock)'
+            % (n, r['distinct'], len(expected), sum(1 for i in range(1, n + 1) if len(set(results.get(i, []))) > 1), len(stuck)))
+    if len(expected) < n * 0.8:
+        raise Infra('program generator produces too many programs that are not determinate')
+    ctx.cov['programs'] = len(expected)
+    kinds = {}
+    for i in expected:
+        kinds[progs[i - 1]['kind']] = kinds.get(progs[i - 1]['kind'], 0) + 1
+    ctx.cov['program_kinds'] = kinds
+    # --- (2) the three builds of the interpreter
+    wrap = os.path.join(BUILD, 'wrap')
+    rc, o = sh('%s/tools/build_wrap.sh %s' % (VERIF, wrap), timeout=600, env={'REPO': REPO})
+    if rc != 0:
+        raise Infra('build of the wrapping library variants failed: ' + o[-2000:])
+    src = os.path.join(VERIF, 'harness', 'pthprog.c')
+    b_sys, b_ld = os.path.join(BUILD, 'pthprog_sys'), os.path.join(BUILD, 'pthprog_ld')
+    rc, o = sh('gcc -O1 -g -w -o %s %s -lpthread && gcc -O1 -g -w -o %s %s @%s/src/myth-ld.opts %s/libmyth-ld.a -lpthread -ldl' % (b_sys, src, b_ld, src, REPO, wrap), timeout=300)
+    if rc != 0:
+        raise Infra('pthprog build failed: ' + o[-2000:])
+    pdir = os.path.join(wd, 'pprogs'); os.makedirs(pdir, exist_ok=True)
+    nws = (1, 2, 4) if ctx.quick else (1, 2, 3, 4, 8, 16)
+    jobs = []
+    for i in sorted(expected):
+        pp = os.path.join(pdir, 'p%d.prog' % i); write_pth_prog(pp, progs[i - 1])
+        jobs.append((i, pp, 'system', b_sys, {}))
+        for nw in nws:
+            jobs.append((i, pp, 'ld nw=%d' % nw, b_ld, {'MYTH_NUM_WORKERS': str(nw)}))
+            jobs.append((i, pp, 'dl nw=%d' % nw, b_sys, {'MYTH_NUM_WORKERS': str(nw), 'LD_PRELOAD': os.path.join(wrap, 'libmyth-dl.so')}))
+        jobs.append((i, pp, 'ld MYTH_WRAP_PTHREAD=0', b_ld, {'MYTH_WRAP_PTHREAD': '0'}))
+
+    def one(j):
+        i, pp, how, binary, env = j
+        rc, o = sh('timeout 30 %s %s' % (binary, pp), timeout=60, env=env)
+        return (i, pp, how, binary, env, rc, o)
+    with cf.ThreadPoolExecutor(max_workers=NCPU) as ex:
+        outs = list(ex.map(one, jobs))
+    nbad = 0
+    for i, pp, how, binary, env, rc, o in outs:
+        line = [l for l in o.split('\n') if l.startswith('{')]
+        got = None
+        if rc == 0 and line:
+            try:
+                got = norm_result(json.loads(line[-1]))
+            except Exception:
+                got = None
+        if got != expected[i]:
+            # a difference counts only if a second run repeats it (or fails as well)
+            i2, _, _, _, _, rc2, o2 = one((i, pp, how, binary, env))
+            line2 = [l for l in o2.split('\n') if l.startswith('{')]
+            got2 = norm_result(json.loads(line2[-1])) if rc2 == 0 and line2 else None
+            if got2 == expected[i]:
+                ctx.cov.setdefault('unrepeatable_differences', []).append({'program': i, 'how': how, 'rc': rc})
+                if how == 'system':
+                    continue
+            nbad += 1
+            if nbad <= 8:
+                what = ('exit status %d%s' % (rc, ' (time-out: hang)' if rc == 124 else '')) if got is None else 'result %s' % json.dumps(got, sort_keys=True)
+                ctx.violation('pthread program %d (%s) run with %s: %s; the reference semantics (every interleaving) and the system library give %s%s'
+                              % (i, progs[i - 1]['kind'], how, what, json.dumps(expected[i], sort_keys=True), '' if got2 != expected[i] else ' [second run agreed]'),
+                              [pp, os.path.join(d, 'PthProgs.tla')], {'program': progs[i - 1], 'how': how, 'env': env, 'output': o[-600:]})
+    ctx.cov['traces_validated_against_impl'] = len(outs)
+    ctx.cov['behaviours_replayed_into_impl'] = len(outs)
+    ctx.cov['schedules'] = len(outs)
+    ctx.log('S->C %d runs of %d programs (system library, link-time wrapping and preloading with %s workers) compared with the specification result: %d differ'
+            % (len(outs), len(expected), '/'.join(map(str, nws)), nbad))
+    # --- (3) binding self-test: a program changed behind the specification's back must be noticed
+    i0 = next(i for i in sorted(expected) if any(o[0] == 'ADD' for b in progs[i - 1]['threads'] for o in b))
+    mutp = json.loads(json.dumps(progs[i0 - 1]))
+    done = False
+    for b in mutp['threads']:
+        for k_, o in enumerate(b):
+            if o[0] == 'ADD' and not done:
+                b[k_] = ['ADD', o[1], o[2] + 1, o[3]]; done = True
+    mp = os.path.join(pdir, 'mut.prog'); write_pth_prog(mp, {'threads': [[tuple(o) for o in b] for b in mutp['threads']], 'barn': mutp['barn'], 'keydt': mutp['keydt'], 'mkind': mutp['mkind']})
+    rc, o = sh('timeout 30 %s %s' % (b_ld, mp), timeout=60, env={'MYTH_NUM_WORKERS': '2'})
+    line = [l for l in o.split('\n') if l.startswith('{')]
+    if rc == 0 and line and norm_result(json.loads(line[-1])) == expected[i0]:
+        raise Infra('bind self-test: a changed program still produces the expected result')
+    ctx.cov['bind_selftest'].append({'corruption': 'one ADD operand changed in the program given to the implementation', 'rejected': True})
+    ctx.cov['samples'].append({'program': progs[i0 - 1], 'expected': expected[i0]})
+    ctx.assumptions += ['programs are small (at most 4 threads) so that TLC can enumerate every interleaving; determinacy is certified by TLC per program',
+                        'the comparison is of printed results and exit status of whole runs; each (program, mechanism, worker count) is one execution under the native scheduler']
+
+
+CHECKS = {'C16': check_C16, 'C03': check_C03, 'C01': check_C01, 'C02': check_C02, 'C04': check_C04, 'C09': check_C09, 'C10': check_C10, 'C11': check_C11, 'C05': check_C05, 'C06': check_C06, 'C07': check_C07,
           'C08': check_C08, 'C12': check_C12, 'C13': check_C13, 'C14': check_C14, 'C15': check_C15, 'C17': check_C17, 'C18': check_C18, 'C19': check_C19, 'C20': check_C20}
 
 
